@@ -51,8 +51,6 @@ TRUSTED_BASE = [
 ASSUMPTIONS = ["inputs have well-formed experiment:date/time and a run index",
                "log names of different sources do not collide after prefixing"]
 NOT_PROVED = [
-    "prefix-freeness of the concrete names src-#<i>_ (hypothesis hpf of join_log_names_distinct; "
-    "name collisions would show up as merged logs in the correspondence)",
     "time/frame monotone across the seams (false in general: depends on measurement durations); "
     "proved instead: offsets are non-negative and the shifted columns are exactly col + offset",
     "tables and metadata of the joined file (correspondence-only: not compared)",
